@@ -22,6 +22,7 @@ Expectations returned by ``Run.model``:
 
     RET(v)        the operation succeeds and returns v (compared after norm())
     OK            the operation succeeds, return value not judged
+    EITHER(v)     the operation may return v or be rejected; state unchanged either way
     REJECT        the operation has to be rejected: any exception, state unchanged
     RAISES(a, b)  as REJECT but the exception class name has to be one of a, b
     UNJUDGED      the statement makes no promise; nothing is compared for this
@@ -29,16 +30,44 @@ Expectations returned by ``Run.model``:
 
 An op is a JSON-able list ``[name, arg, ...]``.
 """
+import contextlib
 import itertools
+import signal
+import threading
 import traceback
 
-from vf.core import canon, digest
+from vf.core import canon, digest, Watchdog
+
+HANG_S = 3.0          # per sequence (a 40 step sequence normally needs milliseconds)
+
+
+@contextlib.contextmanager
+def deadline(seconds):
+    """Raise core.Watchdog (a BaseException) in the main thread after ``seconds``."""
+    if threading.current_thread() is not threading.main_thread() or not hasattr(signal, "setitimer"):
+        yield
+        return
+
+    def onalarm(signum, frame):
+        raise Watchdog("deadline %.1fs" % seconds)
+    old = signal.signal(signal.SIGALRM, onalarm)
+    signal.setitimer(signal.ITIMER_REAL, seconds)
+    try:
+        yield
+    finally:
+        signal.setitimer(signal.ITIMER_REAL, 0)
+        signal.signal(signal.SIGALRM, old)
 
 _B62 = "0123456789ABCDEFGHIJKLMNOPQRSTUVWXYZabcdefghijklmnopqrstuvwxyz"
 
 
 def RET(v):
     return ("ret", v)
+
+
+def EITHER(v):
+    """the operation may succeed returning v or be rejected; the state is unchanged either way"""
+    return ("either", v)
 
 
 OK = ("ok",)
@@ -60,7 +89,7 @@ def norm(v):
 
 
 class Divergence(dict):
-    """kind: return | raised | accepted | exc-type | state | reject-state | observe | harness"""
+    """kind: return | raised | accepted | exc-type | state | reject-state | observe | hang | invariant | harness"""
 
 
 class Stats(object):
@@ -90,11 +119,15 @@ def _obs(run):
 
 
 def _delta(want, got):
-    """only the differing entries of two dict states (keeps witnesses readable)"""
+    """only the differing entries of two (nested) dict states (keeps witnesses readable)"""
     if isinstance(want, dict) and isinstance(got, dict):
-        ks = [k for k in list(want) + [k for k in got if k not in want] if want.get(k, "<absent>") != got.get(k, "<absent>")]
-        if ks and len(ks) < len(want):
-            return ({k: want.get(k, "<absent>") for k in ks}, {k: got.get(k, "<absent>") for k in ks})
+        ks = [k for k in list(want) + [k for k in got if k not in want]
+              if want.get(k, "<absent>") != got.get(k, "<absent>")]
+        if ks:
+            w, g = {}, {}
+            for k in ks:
+                w[k], g[k] = _delta(want.get(k, "<absent>"), got.get(k, "<absent>"))
+            return w, g
     return want, got
 
 
@@ -107,18 +140,38 @@ def run_sequence(spec, ops, judge_from=0, stats=None, want_trace=False):
     st = stats or Stats()
     trace = [] if want_trace else None
     step = [0]
+    note = [None]
     try:
-        div = _run_sequence(spec, ops, judge_from, st, trace, step)
+        with deadline(HANG_S):
+            div = _run_sequence(spec, ops, judge_from, st, trace, step, note)
+    except Watchdog:
+        # non-termination is only reported after a confirming re-run with a doubled budget (cf. C14)
+        i = step[0]
+        confirmed = False
+        step2 = [0]
+        try:
+            with deadline(2 * HANG_S):
+                _run_sequence(spec, ops[:i + 1], i, Stats(), None, step2)
+        except Watchdog:
+            confirmed = True
+        except Exception:
+            pass
+        div = Divergence(kind="hang", step=i, op=ops[i], expected="the operation terminates",
+                         observed="no return within %.0f s, again none within %.0f s on a re-run" % (HANG_S, 2 * HANG_S)
+                         if confirmed else "no return within %.0f s, but the re-run finished" % HANG_S,
+                         confirmed=confirmed)
     except _ObserveError as e:
         i = step[0]
         div = Divergence(kind="observe", step=i, op=ops[i], expected="a readable, self-consistent object",
                          observed="reading the state raises " + str(e), exc=e.__cause__)
     if div is not None:
         div["ops"] = list(ops[:div["step"] + 1])
+        div["note"] = note[0]              # whatever the model said about the failing step (Run.note)
     return div, st, trace
 
 
-def _run_sequence(spec, ops, judge_from, st, trace, step):
+def _run_sequence(spec, ops, judge_from, st, trace, step, note=None):
+    note = note if note is not None else [None]
     """Execute ``ops``.  Steps before ``judge_from`` are executed on both sides
     but not compared (the exhaustive enumerator judged them already as shorter
     sequences).  Returns (divergence or None, stats, trace)."""
@@ -132,12 +185,14 @@ def _run_sequence(spec, ops, judge_from, st, trace, step):
         try:
             if judged and prev_model_state is None:
                 prev_model_state = norm(run.model_state())
+            run.note = None
             exp = run.model(op)
+            note[0] = run.note
         except Exception:
             return Divergence(kind="harness", step=i, op=op, expected=None,
                               observed="model raised: " + traceback.format_exc()[-600:])
         before = None
-        if judged and exp[0] == "reject":
+        if judged and exp[0] in ("reject", "either"):
             before = _obs(run)
         exc = None
         out = None
@@ -147,7 +202,11 @@ def _run_sequence(spec, ops, judge_from, st, trace, step):
             exc = e
         if exp[0] == "unjudged":
             st.unjudged += 1
-            run.resync()
+            problem = run.resync()        # may name an invariant that has to hold even for unjudged steps
+            if problem and judged:
+                st.outcome_evals += 1
+                return Divergence(kind="invariant", step=i, op=op, expected="invariant holds after an unjudged step",
+                                  observed=problem)
             prev_model_state = None
             if want_trace:
                 trace.append({"op": op, "unjudged": True})
@@ -157,6 +216,8 @@ def _run_sequence(spec, ops, judge_from, st, trace, step):
         st.judged += 1
         st.outcome_evals += 1
         name = op[0]
+        if exp[0] == "either":
+            exp = ("reject", ()) if exc is not None else ("ret", exp[1])
         if exp[0] == "reject":
             st.rejected += 1
             st.opcount(name, "rejected")
@@ -283,7 +344,8 @@ def what_of(spec, ops, div):
         {"return": "returns a different value", "raised": "raises", "accepted": "is accepted",
          "exc-type": "raises another exception class", "state": "leaves a different state",
          "reject-state": "is rejected but changes the state", "harness": "broke the harness",
-         "observe": "leaves an object whose state cannot be read"}[div["kind"]],
+         "observe": "leaves an object whose state cannot be read", "hang": "does not terminate",
+         "invariant": "breaks an invariant"}[div["kind"]],
         str(div.get("expected"))[:160], str(div.get("observed"))[:160])
 
 
@@ -294,6 +356,8 @@ class Reporter(object):
         self.ctx = ctx
         self.seen = {}
         self.opstats = {}
+        self.hangs = 0
+        self.abort = False
 
     def absorb(self, spec, st):
         c = self.ctx
@@ -309,6 +373,21 @@ class Reporter(object):
             d[k] = d.get(k, 0) + v
 
     def report(self, spec, ops, div, do_shrink=True):
+        if div["kind"] == "hang":
+            self.hangs += 1
+            if self.hangs >= 4:
+                self.abort = True          # every further hanging case costs seconds
+            if not div.get("confirmed"):
+                self.ctx.inconclusive_case("%s: %s ran into the %.0f s deadline once (not reproduced)" % (
+                    spec.name, canon(div["ops"])[:200], HANG_S))
+                return None
+            do_shrink = False
+            key = key_of(spec, div)
+            self.seen[key] = self.seen.get(key, 0) + 1
+            self.ctx.fail(key, what_of(spec, div["ops"], div),
+                          {"spec": spec.name, "ops": div["ops"], "kind": "hang", "failing_op": div["op"],
+                           "observed": div["observed"]})
+            return key
         key = key_of(spec, div)
         n = self.seen.get(key, 0)
         self.seen[key] = n + 1
@@ -352,7 +431,7 @@ def exhaustive(ctx, rep, spec, alphabet, maxlen, firsts=None, cap=None):
     n = len(alphabet)
 
     def rec(idxs, changed_before):
-        if cap is not None and count[0] >= cap:
+        if (cap is not None and count[0] >= cap) or rep.abort:
             return
         ops = [alphabet[i] for i in idxs]
         st = Stats()
@@ -379,6 +458,9 @@ def random_runs(ctx, rep, spec, nseq, maxlen, rng, minlen=4, avoid_fraction=0.5)
     so that the rest of the space is still explored in depth."""
     q = getattr(spec, "quarantined", None)
     for s in range(nseq):
+        if rep.abort:
+            ctx.inconclusive_case("%s: random runs stopped after repeated hangs" % spec.name)
+            break
         length = rng.randint(minlen, maxlen)
         avoid = q is not None and rng.random() < avoid_fraction
         ops = []
